@@ -80,7 +80,7 @@ package wallet
 //@ interface Backend
 //@   method NewAddress
 //@     requires recv != nil
-//@     ensures result != nil
+//@     ensures result != nil && fresh(payload(result))
 //@   method DecodeSig
 //@     requires recv != nil
 //@ end
@@ -127,3 +127,53 @@ package wallet
 //@   modifies *
 
 //@ ghost func addrBackend(a Address) BackendID
+
+// ---------------------------------------------------------------------------
+// Round trip and stability of address maps (C14), token level (see channel/zz_verif_contracts.go for the vocabulary).
+//
+// AddressDecMap.Encode writes the number of entries and then, for every key of the map exactly once and in strictly ascending
+// order of the keys, the key and the marshalled address. A strictly ascending enumeration of a finite set is unique, so equal
+// maps have equal encodings (the iteration order of Go maps is random: ranging over the map itself does not give this).
+// addrMapTokens(w, p, x, ids, n): the first n entries written at p are the keys ids[0..n) of x with their addresses.
+// ---------------------------------------------------------------------------
+//@ ghost func entryPos(p int, k int) int
+//@ axiom forall p, k int :: { entryPos(p, k) } entryPos(p, k) == p + 1 + 2 * k
+//@ pred addrMapTokens(w io.Writer, p int, x AddressDecMap, ids []int, n int) = forall k int :: { entryPos(p, k) } 0 <= k && k < n ==>
+//@   wtokKind(w, entryPos(p, k)) == tokkind("int32") && wtokVal(w, entryPos(p, k)) == ids[k] && has(x, ids[k]) &&
+//@   wtokKind(w, entryPos(p, k) + 1) == tokkind("marshal") && wtokVal(w, entryPos(p, k) + 1) == marshalOf(x[ids[k]])
+//@ pred ascending(ids []int, n int) = forall i, j int :: 0 <= i && i < j && j < n ==> ids[i] < ids[j]
+//@ pred distinctInts(ids []int, n int) = forall i, j int :: 0 <= i && i < j && j < n ==> ids[i] != ids[j]
+// The canonical form of an encoded address map at p: entry count, then the entries with strictly ascending keys of x.
+//@ pred addrMapCanon(w io.Writer, p int, x AddressDecMap) = wtokKind(w, p) == tokkind("int32") && wtokVal(w, p) == len(x) &&
+//@   (forall k int :: { entryPos(p, k) } 0 <= k && k < len(x) ==> wtokKind(w, entryPos(p, k)) == tokkind("int32") && has(x, wtokVal(w, entryPos(p, k))) &&
+//@     wtokKind(w, entryPos(p, k) + 1) == tokkind("marshal") && wtokVal(w, entryPos(p, k) + 1) == marshalOf(x[wtokVal(w, entryPos(p, k))]) &&
+//@     (k + 1 < len(x) ==> wtokVal(w, entryPos(p, k)) < wtokVal(w, entryPos(p, k + 1))))
+
+//@ pred addrMapWF(x AddressDecMap) = addrMapNonNil(x) && (forall b BackendID :: has(x, b) ==> has(backend, b) && marshalLen(x[b]) <= 65535)
+//@ pred addrMapEq(y AddressDecMap, x AddressDecMap) = len(y) == len(x) &&
+//@   (forall b BackendID :: has(y, b) ==> has(x, b) && y[b] != nil && allocated(payload(y[b])) && unmarshalledFrom(y[b]) == marshalOf(x[b]))
+//@ codec AddressDecMap wf addrMapWF eq addrMapEq by verifRoundTripAddressDecMap
+//@ func verifRoundTripAddressDecMap
+//@   tokenmodel
+//@   requires w0 != nil && r0 != nil && addrMapWF(x)
+//@   modifies *
+//@   inlines (AddressDecMap).Encode, (*AddressDecMap).Decode
+//@   ensures encErr == nil && !rfail(r0) && !rejected(r0) ==> decErr == nil
+//@   ensures encErr == nil && decErr == nil ==> !desync(r0) && rcount(r0) - old(rcount(r0)) == wcount(w0) - old(wcount(w0))
+//@   ensures encErr == nil && decErr == nil ==> addrMapEq(y, x)
+//@   ensures encErr == nil ==> wcount(w0) == old(wcount(w0)) + 1 + 2 * len(x) && addrMapCanon(w0, old(wcount(w0)), x)
+//@   loop (AddressDecMap).Encode.1
+//@     invariant len(indexes) == $i && distinctInts(indexes, $i)
+//@     invariant forall k int :: 0 <= k && k < $i ==> has(a, indexes[k]) && visited(indexes[k])
+//@   loop (AddressDecMap).Encode.2
+//@     invariant wcount(w) == old(wcount(w)) + 1 + 2 * $i && len(indexes) == len(a) && ascending(indexes, len(a))
+//@     invariant wtokKind(w, old(wcount(w))) == tokkind("int32") && wtokVal(w, old(wcount(w))) == len(a)
+//@     invariant (forall k int :: 0 <= k && k < len(a) ==> has(a, indexes[k])) && addrMapTokens(w, old(wcount(w)), a, indexes, $i)
+//@   loop (*AddressDecMap).Decode.1
+//@     modifies fresh, ghost("rcount"), ghost("desync"), ghost("rfail"), ghost("rejected"), ghost("unmarshalledFrom"), ghost("unmarshalled")
+//@     invariant addrMapCanon(w0, old(wcount(w0)), x)
+//@     invariant !desync(r) && rcount(r) == old(rcount(r0)) + 1 + 2 * $i && mapLen == len(x) && *a != nil && fresh(*a) && len(*a) == $i
+//@     invariant entryPos(old(wcount(w0)), $i) == old(wcount(w0)) + 1 + 2 * $i
+//@     invariant forall b BackendID :: has(*a, b) ==> has(x, b) && (*a)[b] != nil && allocated(payload((*a)[b])) && unmarshalledFrom((*a)[b]) == marshalOf(x[b])
+//@     invariant $i > 0 ==> forall b BackendID :: has(*a, b) ==> b <= wtokVal(w0, entryPos(old(wcount(w0)), $i - 1))
+//@     invariant $i == 0 ==> forall b BackendID :: !has(*a, b)
